@@ -14,7 +14,7 @@ def cases(rng, tier):
             I = O.gen_instance(rng, rng.randint(2, 4), rng.randint(10, 12), rng.randint(1, 3), na=rng.choice([2, 3]), twopl=False, maxlen=4, maxq=2)
             for row in I['rows']:
                 if row[0] and rng.random() < 0.7: row[0][0] = rng.choice([10, 11, 12][:max(1, I['nP'] - 9)]) if row[0][0] not in (10, 11, 12) and not any(x in (10, 11, 12) for x in row[0][1:]) else row[0][0]
-            yield 'solver_run', dict(instance=I, crits=[['maxsize', 1, []]], pc=False, stab=False, getter='get_results_short')
+            yield 'solver_run', dict(instance=I, crits=[['maxsize', 1, []]], pc=False, stab=False, getter=('get_results_long' if _ % 8 == 0 else 'get_results_short'))
 
 
 def nontrivial(kind, inp): return True
